@@ -114,6 +114,17 @@ def structures(ctx):
     out = [("1HPX", C.test_pdb_text("1HPX")), ("frag-3SGB-E0+25", C.fragment("3SGB", "E", 0, 25)),
            ("alt-rotamers-AB", multi["alt-rotamers-AB"]), ("model2-missing-atoms", multi["model2-missing-atoms"]),
            ("3SGB-subset", C.test_pdb_text("3SGB-subset")), ("sample-issue-140", C.test_pdb_text("sample-issue-140"))]
+    # three alternate locations: one side chain has A and B copies only, another one A, B and C - conformation C must be
+    # completed from another conformation, whichever the occupancy / B-factor columns favour
+    fr = C.chain_lines("1FTJ-Chain-A", "A", 8, 12)
+    ids = []
+    for ln in fr:
+        if C.resid(ln) not in ids:
+            ids.append(C.resid(ln))
+    tit = [r for r in ids if any(C.resid(ln) == r and ln[17:20] in ("GLU", "ASP", "LYS", "ARG", "TYR", "HIS") for ln in fr)]
+    if len(tit) >= 2:
+        t3 = C.add_altloc(C.add_altloc(fr, tit[0], delta=(700, -500, 400)), tit[1], delta=(300, 300, -200), labels=("A", "B", "C"))
+        out.append(("three-altlocs-AB-ABC", C.join(t3 + [C.TER])))
     if ctx.thorough():
         out += [(n, C.test_pdb_text(n)) for n in ("3SGB", "1FTJ-Chain-A", "4DFR", "conf-alt-AB", "conf-model-mutant")]
     return out
